@@ -17,6 +17,17 @@ STRENGTHENED = {
     "c07-1": "C07 missed it at first (cancellation was only driven from inside the poll); cancellation between Next calls from the consumer side was added",
     "c07-2": "C07 missed it at first; the finished-iterator-after-other-runs (stale handle) check was added",
     "c01-2": "C01 missed it at first; bounded-exhaustive `?//` templates (all ordered pairs of 18 pattern shapes over three variables, three bodies, heterogeneous loops) were added",
+    "c02-1": "C02 caught it with only 3 cases at first; nested deleting update bodies were added to the body pool (now 62 cases)",
+    "c06-2": "C06 caught it with only 3 cases at first; flat and nested deleting updates were added to the concurrent workload (now 18 racing cases)",
+    "c20-2": "C20 caught it with a single case at first; every generated tail-recursive definition is now also started from a call site with something pending (30 loop sites, 20 generator sites)",
+    "c04-1": "C04, C02 and C01 missed it at first; value operands (bindings with destructuring patterns and identity sources, indices, conditions, arguments) at path level were added as templates to C04/C02 and to the path-safe generator",
+    "c04-2": "C04 and C01 missed it at first; control-flow join templates (11 two-branch constructs x 8x8 branch tails x 12 continuations x 17 multi-slot consumers) were added to C04 and C01",
+    "c14-2": "C14 missed it at first (the test-vs-match cross-check existed, but no fully anchored literal was generated); whole-subject anchored literals were added to the fixed regexes and as a wrapping step of the generator",
+    "c12-1": "C12 missed it at first; c12.lib now keeps every text Marshal returned for a batch, marshals the other values again (also from a second goroutine) and re-reads the kept slices",
+    "c11-1": "C11 missed it at first: generated arrays had at most 12 elements; a quarter now has 13-40 and some up to 300",
+    "c11-2": "C11 missed it at first (C03 caught it): the universe had json.Number(\"-0\") but not json.Number(\"0\"); integer/decimal literal spellings of zero and of numbers whose text order differs from numeric order were added",
+    "c19-1": "C19 missed it at first (C04 caught it); bare calls of parameterless jq functions and of previously used builtins were added as callback arguments, plus a systematic path-context x argument-shape sweep",
+    "c19-2": "C19 missed it at first; an iterator behaviour returning gojq.NewIter over a list kept by the caller, and WithInputIter(gojq.NewIter(list...)) used twice over the same list, were added",
     "c05-2": "C05 missed it at first; programs evaluating one pattern under unsupported and supported flag sets in every order were added to the rerun-equality workload",
 }
 OVERRIDE_NEEDS = {}
